@@ -124,6 +124,8 @@ def _xml_lines(ctx, repo) -> None:
 
 def check(ctx) -> None:
     repo = ctx.repo
+    ctx.rule("C35.regular-result", "DATAFLOW: the execution result returned by TypeTracingTestCaseExecutor.execute is never assigned from an execution inside the proxied (shim_isinstance / type-tracing observer) block", floor=1)
+    _regular_result(ctx, repo)
     ctx.rule("C35.html", "the lexer the HTML template instantiates yields one highlighted line per source line (evaluated with the repository's pygments over modules with leading / inner blank lines)", floor=3)
     _html_alignment(ctx, repo)
     ctx.rule("C35.annotation", "ABSINT: the per-line branch annotation equals (code-object entry, predicate entry, their sum) for every membership combination of the line; entry / annotation addition is component-wise", floor=7)
@@ -297,3 +299,32 @@ def _html_alignment(ctx, repo) -> None:
         n_out = len(body.split("\n")) - 1
         n_src = len(src.splitlines())
         ctx.check("C35.html", kws[0].value, n_out == n_src, f"[{label}] the highlighted code has {n_out} lines, the module {n_src}: every coverage marker and line number after the stripped lines stands next to the wrong code line (an uncovered `return 2` is shown as covered)", what=f"[{label}] one highlighted line per source line", stmt=f"[html] {label}")
+
+
+def _regular_result(ctx, repo) -> None:
+    """The result the type-tracing executor hands to the coverage functions is the one of the regular execution: no
+    execution performed under the proxy observer / the isinstance shim is returned (a module can behave differently for a
+    proxy - `type(value) is int` - so its trace is not what the suite covers)."""
+    EXE = "pynguin.testcase.execution"
+    fn = repo.try_func(EXE, "TypeTracingTestCaseExecutor.execute")
+    if fn is None:
+        raise AnalysisError("anchor vanished: TypeTracingTestCaseExecutor.execute")
+    ctx.analysed(fn)
+    proxied_withs = [w for w in own_nodes(fn) if isinstance(w, ast.With) and any("shim_isinstance" in norm(i.context_expr) or "_type_tracing_observer" in norm(i.context_expr) for i in w.items)]
+    if not proxied_withs:
+        raise AnalysisError("C35.regular-result: the proxied execution block vanished")
+    rets = [r for r in own_nodes(fn) if isinstance(r, ast.Return) and r.value is not None]
+    names = {norm(r.value) for r in rets if isinstance(r.value, ast.Name)}
+    n = 0
+    for w in proxied_withs:
+        for x in ast.walk(w):
+            bad = None
+            if isinstance(x, ast.Assign) and any(norm(t) in names for t in x.targets) and any(isinstance(c, ast.Call) and last_attr(c) == "execute" for c in ast.walk(x.value)):
+                bad = x
+            if isinstance(x, ast.Return) and x.value is not None and any(isinstance(c, ast.Call) and last_attr(c) == "execute" for c in ast.walk(x.value)):
+                bad = x
+            if bad is not None:
+                n += 1
+                ctx.fail("C35.regular-result", bad, f"`{norm(bad)[:80]}` makes the result of the execution with proxied arguments the one that is returned: coverage and report then show what the module does for a proxy (e.g. the else branch of `if type(value) is int:`), not what the suite executes", stmt="[proxied result returned]")
+    if n == 0:
+        ctx.ok("C35.regular-result", fn, "no execution inside the proxied block is returned")
